@@ -32,5 +32,6 @@ def run(ctx):
                         ["oracle = Fn_Select.tla (RestoreOK) on top of the pattern semantics Fn_Glob.tla (checked against the real matcher by C28); TLC evaluates it on every recorded restore",
                          "exclude mode follows the documented rule that nothing below an excluded directory can be re-included",
                          "--delete: removal is demanded for entries whose whole chain (top-most ancestor not in the snapshot .. entry) is selected and whose parent directory restore works in (is selected or holds a restored entry); it is forbidden for entries with no selected element in that chain; in between (e.g. a selected entry inside a directory that restore does not visit) both outcomes are accepted",
-                         "pre-existing entries never have a type conflicting with the snapshot entry of the same path; content is abstracted to snap/pre/other by the Go driver",
+                         "pre-existing entries have a type conflicting with the snapshot entry of the same path only where the snapshot has a socket, fifo or device node (sockets are part of the snapshot but never created; a selected socket need not appear); content is abstracted to snap/pre/other by the Go driver",
+                         "device nodes are only generated when mknod is permitted in the sandbox (probed at run time)",
                          "trees of depth <= 3 over names {a,b,ab,A,Ab}; patterns from fixed pools (40 globs, 10 negated, 10 case-insensitive)"])
